@@ -37,6 +37,7 @@ CONSTANTS FD, TM, TK, EVS,      \* object ids (subsets of 1..8)
           KernMode,             \* "free": any readiness change while blocked (design checking);
                                 \* "pipe": every descriptor is a pipe read end: data arrives, the
                                 \* writer hangs up, only the program drains (realisable scripts)
+          MaxIntr,              \* how many waits the kernel may interrupt (EINTR)
           InitBits,             \* possible initial readiness bit sets of a descriptor
           GenMode               \* record the environment's choices in `hist` (script generation)
 
@@ -61,19 +62,20 @@ VARIABLES
   numobjs, numfds, quit, runTimers, clock, ctime, cvalid, lastAbs, lastCnt, tfd,
   wrel, wuse,  \* the wait in progress: effective relative timeout (-1 none), timer descriptor in use
   tkhas,       \* the task object exists and was initialised earlier (no IV_TASK_INIT at the next register)
+  intr,        \* number of interrupted waits so far
   hist,        \* GenMode: the program's and the environment's choices so far
   mon
 
 vars == <<pc, cb, cbops, ops, waits, kern, fdreg, fdh, kreg, notify, parr, active, ready, handled, stage, kcond,
           tmst, tmexp, expB, tkq, tkepoch, tkNext, tkCur, epoch, inRound,
           evreg, evq, evPend, evBatch, evLocal, evEmptyNow,
-          numobjs, numfds, quit, runTimers, clock, ctime, cvalid, lastAbs, lastCnt, tfd, wrel, wuse, tkhas, hist, mon>>
+          numobjs, numfds, quit, runTimers, clock, ctime, cvalid, lastAbs, lastCnt, tfd, wrel, wuse, tkhas, intr, hist, mon>>
 
 fdvars == <<fdreg, fdh, kreg, notify, parr, active, ready, handled, stage, kcond>>
 tmvars == <<tmst, tmexp, expB>>
 tkvars == <<tkq, tkepoch, tkNext, tkCur, epoch, inRound, tkhas>>
 evvars == <<evreg, evq, evPend, evBatch, evLocal, evEmptyNow>>
-timevars == <<clock, ctime, cvalid, lastAbs, lastCnt, tfd, wrel, wuse>>
+timevars == <<clock, ctime, cvalid, lastAbs, lastCnt, tfd, wrel, wuse, intr>>
 
 (* ticks: 0 is the zero timespec (an expiry of 0 is "long ago", and the
    zero deadline iv_main uses while tasks are pending); the clock starts at 1 *)
@@ -102,7 +104,7 @@ Init ==
   /\ evLocal = FALSE /\ evEmptyNow = FALSE
   /\ numobjs = 0 /\ numfds = 0 /\ quit = FALSE /\ runTimers = TRUE
   /\ clock = 1 /\ ctime = 0 /\ cvalid = FALSE /\ lastAbs = 0 /\ lastCnt = 0 /\ tfd = -1
-  /\ wrel = -1 /\ wuse = FALSE /\ tkhas = [k \in TK |-> FALSE] /\ hist = IF GenMode THEN << [t |-> "init", kc |-> [i \in 1..Cardinality(FD) |-> kcond[i]]] >> ELSE <<>>
+  /\ wrel = -1 /\ wuse = FALSE /\ tkhas = [k \in TK |-> FALSE] /\ intr = 0 /\ hist = IF GenMode THEN << [t |-> "init", kc |-> [i \in 1..Cardinality(FD) |-> kcond[i]]] >> ELSE <<>>
   /\ mon = Mon!MonInit
 
 -----------------------------------------------------------------------------
@@ -302,7 +304,7 @@ RunTimers ==
              /\ tmst' = [t \in TM |-> IF t \in due THEN "exp" ELSE tmst[t]]
              /\ numobjs' = numobjs - Cardinality(due)
              /\ pc' = "texp"
-  /\ UNCHANGED <<cb, cbops, ops, waits, kern, fdvars, tmexp, tkvars, evvars, numfds, quit, runTimers, clock, lastAbs, lastCnt, tfd, wrel, wuse, hist>>
+  /\ UNCHANGED <<cb, cbops, ops, waits, kern, fdvars, tmexp, tkvars, evvars, numfds, quit, runTimers, clock, lastAbs, lastCnt, tfd, wrel, wuse, intr, hist>>
 
 TimerPop ==
   /\ pc = "texp" /\ cb = <<>>
@@ -439,7 +441,7 @@ PollEnter ==
      /\ pc' = IF blocks THEN "blocked" ELSE "pret"
   /\ UNCHANGED hist
   /\ UNCHANGED <<cb, cbops, ops, kern, fdreg, fdh, parr, active, ready, handled, stage, kcond, tmvars, tkvars, evvars,
-                 numobjs, numfds, quit, clock>>
+                 numobjs, numfds, quit, clock, intr>>
 
 (* the wait returns.  While it was blocked the environment may have changed the
    kernel's view of the descriptors and time may have passed, but not beyond
@@ -479,7 +481,27 @@ PollReturn ==
        /\ hist' = IF blocked THEN H([t |-> "env", kc |-> TruthOf(kc), was |-> TruthOf(kcond), adv |-> adv]) ELSE hist
        /\ pc' = "disp" /\ handled' = None /\ stage' = 0
   /\ UNCHANGED <<cb, cbops, ops, waits, fdreg, fdh, kreg, notify, parr, tmvars, tkvars, evvars, numobjs, numfds, quit,
-                 ctime, lastAbs, wrel, wuse>>
+                 ctime, lastAbs, wrel, wuse, intr>>
+
+(* the kernel interrupts the wait (EINTR), possibly after some time has passed:
+   nothing is reported; the epoll-timerfd method reports "run timers" only if
+   it was given a timeout; the cached time is invalid afterwards *)
+PollEintr ==
+  /\ pc \in {"blocked", "pret"} /\ cb = <<>> /\ intr < MaxIntr
+  /\ intr' = intr + 1
+  /\ \E adv \in 0..(MaxTime - clock) :
+       LET deadline == IF wrel >= 0 THEN (IF tfd >= 0 /\ tfd < clock + wrel THEN tfd ELSE clock + wrel) ELSE tfd IN
+       /\ (pc = "pret") => adv = 0
+       /\ (deadline >= 0) => clock + adv <= deadline
+       /\ clock' = clock + adv
+       /\ mon' = Ev(Ev1([e |-> "Flt", c |-> Prim, n |-> intr + 1, err |-> "EINTR", t |-> 0]),
+                    [e |-> "WR", r |-> -1, err |-> "EINTR", ev |-> [i \in 1..Cardinality(FD) |-> 0], oth |-> 0,
+                     tr |-> TruthOf(kcond), now |-> Ts(clock + adv), t |-> 0])
+  /\ cvalid' = FALSE
+  /\ runTimers' = IF Method = "ept" THEN runTimers ELSE TRUE
+  /\ active' = <<>> /\ pc' = "disp" /\ handled' = None /\ stage' = 0
+  /\ UNCHANGED <<cb, cbops, ops, waits, kern, fdreg, fdh, kreg, notify, parr, ready, kcond, tmvars, tkvars, evvars,
+                 numobjs, numfds, quit, ctime, lastAbs, lastCnt, tfd, wrel, wuse, hist>>
 
 DispatchPop ==
   /\ pc = "disp" /\ cb = <<>>
@@ -515,7 +537,7 @@ Next ==
   \/ \E k \in TK : \E fr \in BOOLEAN : TaskRegister(k, fr) \/ TaskUnregister(k, fr /\ KeepTasks)
   \/ \E e \in EVS : EventRegister(e) \/ EventUnregister(e) \/ EventPost(e)
   \/ Quit \/ MainEnter \/ RunTimers \/ TimerPop \/ CbReturn \/ RunTasksBegin \/ TaskPop \/ EventRun
-  \/ ExitTest \/ PollEnter \/ PollReturn \/ DispatchPop \/ DispatchBand
+  \/ ExitTest \/ PollEnter \/ PollReturn \/ PollEintr \/ DispatchPop \/ DispatchBand
 
 Spec == Init /\ [][Next]_vars
 
@@ -540,7 +562,7 @@ TimerFdOK == (tfd >= 0 => lastCnt = 5) /\ lastCnt \in 0..5
 (* the monitor's vacuity bookkeeping does not influence behaviour *)
 View == <<pc, cb, cbops, ops, waits, kern, fdreg, fdh, kreg, notify, parr, active, ready, handled, stage, kcond,
           tmst, tmexp, expB, tkq, tkNext, tkCur, inRound, evreg, evq, evPend, evBatch, evLocal,
-          numobjs, quit, runTimers, clock, ctime, cvalid, lastAbs, lastCnt, tfd, wrel, wuse, tkhas, tkepoch, epoch,
+          numobjs, quit, runTimers, clock, ctime, cvalid, lastAbs, lastCnt, tfd, wrel, wuse, tkhas, tkepoch, epoch, intr,
           [mon EXCEPT !.seen = {}, !.ctx = ""], hist>>
 
 (* script generation: print the recorded choices of every finished behaviour *)
